@@ -18,7 +18,10 @@ CFG = {
                   "agreement. The model is tied to the code on every run by replaying operation sequences on the real containers (int, string and pointer "
                   "keys, plain and Safe variants) and evaluating model and specification on the same sequences inside Coq.",
     "level_note": "treeset / treebidimap: the correspondence check (C09/Check.v) now evaluates the red-black models themselves (rb_set_step, rb_bidi_step, ts_union / "
-                  "ts_inter / ts_diff with the int comparator) against the recorded snapshots; the shapes of the trees inside treeset / treebidimap are not compared here (the red-black code itself is tied shape-for-shape by C02's check of redblacktree). treeset's "
+                  "ts_inter / ts_diff) against the recorded snapshots, with the comparator shape the container was built with: the built-in -1/0/+1 comparator or a user "
+                  "comparator a-b, b-a, (b-a)*7, (a-b)*3, k*strings.Compare, a struct field of a pointer key (cmpsel / cmp_of in Check.v: k*(a-b) on the key numbers, which has "
+                  "the sign of the real comparator on the real keys - magnitudes are not modelled, correct tree code only looks at the sign; C09_comparator_shapes proves "
+                  "every evaluated shape satisfies the comparator laws the tree theorems assume; Keys()/Values() are judged in the comparator's order); the shapes of the trees inside treeset / treebidimap are not compared here (the red-black code itself is tied shape-for-shape by C02's check of redblacktree). treeset's "
                   "Intersection/Union return the empty set when the two operands carry different comparators (a reflect pointer test): the model has one comparator, "
                   "the branch is not modelled. The ordering list is modelled at the level of its element "
                   "sequence (Append, first-index search, Remove(index), Values); the pointer structure of doublylinkedlist is C07's. 'Operands are not modified' "
@@ -29,7 +32,7 @@ CFG = {
     "theorems": [("C09.Props", [
         "C09_hashmap", "C09_hashset", "C09_linked", "C09_linked_set", "C09_linked_deepequal_refuted", "C09_bidi",
         "C09_algebra", "C09_algebra_linked", "C09_linked_set_inv", "C09_tree_sorted",
-        "C09_treeset", "C09_treebidimap", "C09_algebra_tree", "C09_tree_abstract_agrees"])],
+        "C09_treeset", "C09_treebidimap", "C09_algebra_tree", "C09_tree_abstract_agrees", "C09_comparator_shapes"])],
     "trusted": [
         "Go's built-in map behaves as a finite map under == (premises eqb_spec, ins_ok of the theorems); its iteration order is arbitrary",
         "verif accessors VerifTableKeys/VerifRevKeys of linkedhashmap and linkedhashset, VerifNewSafe of hashset (add-only files, build tag verif)",
